@@ -26,6 +26,7 @@ META = {
 }
 
 FAMS = ["linkdest"]
+MC_INVS = ["ModelMeetsRef", "ModelOutputAbsolute"]
 HOOK = "cmd/scriggo/verif_linkdest_test.go"
 GO_TIMEOUT = 420
 
@@ -364,30 +365,29 @@ def run(ctx, replay_case=None):
     check_kinds_module()
     K = consts(ctx)
     obs = ctx.work / "obs.ndjson"
+    bg, mcfut = ThreadPoolExecutor(max_workers=1), None
     if replay_case is not None:
         cases = ctx.work / "cases.ndjson"
         rig.write_ndjson(cases, [replay_case])
     else:
-        # 1. TLC: the transcribed scanner against the ground truth over every block sequence; export of the documents
-        wd = ctx.stage("mc", FAMS)
-        invs = ["ModelMeetsRef", "ModelOutputAbsolute"]
-        rig.write_cfg(wd / "MC_LinkDest.cfg", constants=K, invariants=invs)
-        r = ctx.tlc(wd, "MC_LinkDest", workers=rig.NCPU, timeout=2700, coverage=not ctx.quick)
-        ctx.cov.update(states=r.distinct, transitions=r.generated, mc_wall_s=round(r.wall, 1), mc_invariants=invs,
-                       bounds=f"documents of <= {K['AllLen']} blocks over all {len(KINDS)} block kinds and <= {K['CoreLen']} blocks over the "
-                              f"{sum(1 for k in KINDS if k[1])} core kinds (base https://example.com/base/, dir docs/sub); every single block under 4 base/dir "
-                              f"configurations; escape pair: strings of <= {K['EscLen']} bytes over 9 symbols",
-                       model_excused_kinds=EXCUSED)
-        if not r.ok:
-            if r.invariant_violated:
-                ctx.cov["model_counterexample"] = {"invariants": r.invariant_violated, "tlc_out": str(wd / "MC_LinkDest.out")}
-            else:
-                raise Infra(f"MC_LinkDest failed: {wd}/MC_LinkDest.out\n" + rig.tail(r.out, 30))
-        if not ctx.quick:
-            ctx.cov["actions_never_taken"] = r.coverage_zero()
-        cases = wd / "cases.ndjson"
+        # 1. TLC "gen": constant-level checks of the model (table consistency, Rewrite under every configuration,
+        #    escape pair) + export of the documents; then, in the background, TLC "mc": the transcribed scanner
+        #    against the ground truth over every block sequence (kept apart: -coverage cannot hold the export)
+        gd = ctx.stage("gen", FAMS)
+        rig.write_cfg(gd / "MC_LinkDest.cfg", constants=dict(K, Mode="gen"))
+        g = ctx.tlc(gd, "MC_LinkDest", workers=1, timeout=1500)
+        cases = gd / "cases.ndjson"
+        if not g.ok:
+            m = re.search(r"Assumption line (\d+), col \d+ to line \d+, col \d+ of module MC_LinkDest is false", g.out)
+            if not (m and cases.exists()):
+                raise Infra(f"MC_LinkDest (gen) failed: {gd}/MC_LinkDest.out\n" + rig.tail(g.out, 30))
+            # the transcription of Rewrite / of the escape pair does not meet the reference: diagnostic
+            ctx.cov["model_counterexample_constant_level"] = {"assumption_at_line": int(m.group(1)), "tlc_out": str(gd / "MC_LinkDest.out")}
         if not cases.exists():
             raise Infra("MC_LinkDest exported no cases.ndjson")
+        wd = ctx.stage("mc", FAMS)
+        rig.write_cfg(wd / "MC_LinkDest.cfg", constants=dict(K, Mode="mc"), invariants=MC_INVS)
+        mcfut = bg.submit(ctx.tlc, wd, "MC_LinkDest", workers=rig.NCPU, timeout=2700, coverage=not ctx.quick)
     # 2. replay into the real code
     ctx.cov["go_test_wall_s"] = round(go_test(ctx, cases, obs), 1)
     allobs = rig.read_ndjson(obs)
@@ -451,6 +451,21 @@ def run(ctx, replay_case=None):
         ctx.cov["model_drift"] = {"compared_with_model": len(sample), "mismatches": drift[0]["nbad"] if drift else 0,
                                   "examples": [show(sample[b["k"] - 1]) for b in drift[:3]]}
 
+    if mcfut is not None:
+        r = mcfut.result()
+        ctx.cov.update(states=r.distinct, transitions=r.generated, mc_wall_s=round(r.wall, 1),
+                       mc_invariants=MC_INVS + ["TableConsistent", "RewriteAllCfgs", "EscPairModel"],
+                       bounds=f"documents of <= {K['AllLen']} blocks over all {len(KINDS)} block kinds and <= {K['CoreLen']} blocks over the "
+                              f"{sum(1 for k in KINDS if k[1])} core kinds (base https://example.com/base/, dir docs/sub); every single block under 4 base/dir "
+                              f"configurations; escape pair: strings of <= {K['EscLen']} bytes over 9 symbols",
+                       model_excused_kinds=EXCUSED)
+        if not r.ok:
+            if r.invariant_violated:
+                ctx.cov["model_counterexample"] = {"invariants": r.invariant_violated, "tlc_out": str(ctx.work / "mc" / "MC_LinkDest.out")}
+            else:
+                raise Infra(f"MC_LinkDest failed: {ctx.work}/mc/MC_LinkDest.out\n" + rig.tail(r.out, 30))
+        if not ctx.quick:
+            ctx.cov["actions_never_taken"] = r.coverage_zero()
     def rw(rdir, b):
         (rdir / "case.json").write_text(json.dumps(case_of(b["obs"])))
         (rdir / "obs.json").write_text(json.dumps(b["obs"]))
